@@ -1,5 +1,6 @@
 import Martian.Invocation
 import Martian.InvocationStr
+import Martian.JsonBytes
 import Driver.Util
 
 /-!
@@ -186,6 +187,14 @@ def showArg : Arg → String
   | .plain e => "P " ++ join (showExp e)
   | .split e => "S " ++ join (showExp e)
 
+def parseKV (p : String) : Option (List UInt8 × List UInt8) :=
+  match p.splitOn ":" with
+  | [k, v] => do
+    let k ← bytesOfHex k
+    let v ← bytesOfHex v
+    pure (k, v)
+  | _ => none
+
 def handle (op : String) (args : List String) : Option String :=
   match op, args with
   | "convert", [t, j] => do
@@ -230,6 +239,14 @@ def handle (op : String) (args : List String) : Option String :=
   | "unq", [t] => do
     let t ← bytesOfHex t
     pure (optHex (Martian.Lexer.unquoteBytes t))
+  | "encmap", [h, m] => do
+    -- sorted-key raw-message map writer: `<khex>:<vhex>,…` (`.` = empty map)
+    let h ← if h == "0" then some false else if h == "1" then some true else none
+    let ps ← if m == "." then some [] else (m.splitOn ",").mapM parseKV
+    pure (hexOfBytes (Martian.JsonBytes.encodeRawMap h ps))
+  | "encarr", [xs] => do
+    let xs ← parseHexList xs
+    pure (hexOfBytes (Martian.JsonBytes.encodeRawArr xs))
   | _, _ => none
 
 end Driver.C16
